@@ -127,8 +127,13 @@ class Cx:
     symbolic = False
     pi = math.pi
 
-    def __init__(self, rtol=1e-7):
+    def __init__(self, rtol=1e-7, floor=1.0):
         self.rtol = rtol
+        # comparisons are relative to max(floor, |a|, |b|): floor 1 makes tiny quantities compare absolutely (rounding
+        # noise around an exact zero must not count as a difference).  A witness the solver certified to differ by
+        # more than 1e-5 relatively is replayed with floor 0 (purely relative), so that defects which only show at
+        # small magnitudes reproduce.
+        self.floor = floor
         self.results = {}
 
     def num(self, x):
@@ -187,7 +192,7 @@ class Cx:
 
     def claim_eq(self, name, a, b):
         a, b = float(a), float(b)
-        scale = max(1.0, abs(a), abs(b))
+        scale = max(self.floor, abs(a), abs(b))
         ok = math.isfinite(a) and math.isfinite(b) and abs(a - b) <= self.rtol * scale
         self._rec(name, ok, "impl=%r oracle=%r" % (a, b))
 
@@ -257,7 +262,7 @@ def run_e2_once(name, names, body, pre=None, positive=(), expect_raise=None, max
     if REPLAY_REQUEST:
         # bin/check <ID> --replay FILE: run the harness body on the real float64 code at the recorded witness
         w = {k: Fraction(v) for k, v in REPLAY_REQUEST["witness"].items()}
-        rep = replay_concrete(concrete or body, names, w, rtol)
+        rep = replay_concrete(concrete or body, names, w, rtol, floor=float(REPLAY_REQUEST.get("comparison_floor", 1.0)))
         hit = _match_claim(rep, REPLAY_REQUEST["claim"])
         return dict(name=name, replay=dict(claim=REPLAY_REQUEST["claim"], float_values=rep.get("values"), error=rep.get("error"),
                                            claim_result=(None if hit is None else dict(holds=hit[0], detail=hit[1]))))
@@ -330,8 +335,13 @@ def run_e2_once(name, names, body, pre=None, positive=(), expect_raise=None, max
                 continue
             rep = replay_concrete(conc, names, w, rtol)
             hit = _match_claim(rep, cname)
+            floor = 1.0
+            if (hit is None or hit[0]) and "relative difference above" in (d.get("detail") or ""):
+                floor = 0.0
+                rep = replay_concrete(conc, names, w, rtol, floor=floor)
+                hit = _match_claim(rep, cname)
             if hit is not None and not hit[0]:
-                path = write_replay(name, cname, w, rep, hit[1])
+                path = write_replay(name, cname, w, rep, hit[1], floor=floor)
                 violations.append(dict(claim=cname, witness=_jsonable(w), detail=hit[1], replay=path))
                 done = True
                 break
@@ -378,9 +388,9 @@ def _match_claim(rep, cname):
     return None
 
 
-def replay_concrete(conc, names, witness, rtol=1e-7):
+def replay_concrete(conc, names, witness, rtol=1e-7, floor=1.0):
     """Run the harness body on the real float64 code at the witness."""
-    H = Cx(rtol)
+    H = Cx(rtol, floor)
     vals = {n: float(witness.get(n, 0)) for n in names}
     out = dict(values=vals)
     try:
@@ -393,12 +403,12 @@ def replay_concrete(conc, names, witness, rtol=1e-7):
     return out
 
 
-def write_replay(ob, cname, witness, rep, detail):
+def write_replay(ob, cname, witness, rep, detail, floor=1.0):
     os.makedirs(REPLAY, exist_ok=True)
     key = re.sub(r"[^A-Za-z0-9_.-]+", "_", "%s__%s" % (ob, cname))[:150]
     path = os.path.join(REPLAY, key + ".json")
     with open(path, "w") as f:
-        json.dump(dict(obligation=ob, claim=cname, witness=_jsonable(witness), float_values=rep.get("values"),
+        json.dump(dict(obligation=ob, claim=cname, witness=_jsonable(witness), float_values=rep.get("values"), comparison_floor=floor,
                        detail=detail, how="bin/check %s --replay %s" % (ob.split("/")[0], path)), f, indent=1)
     return path
 
@@ -612,7 +622,8 @@ def _run_pool(tasks, procs, hard_timeout_s):
                 try:
                     got = pc.recv()
                 except EOFError:
-                    got = None
+                    got = dict(name=t[1], budget_exceeded="worker closed its pipe without a result", violations=[], inconclusive=["<whole obligation>"],
+                               claims={}, n_claims=0, vacuous=False, harness_errors=[], wall_s=round(time.time() - t0, 1))
                 p.join(5)
             elif not p.is_alive():
                 got = dict(name=t[1], budget_exceeded="worker exited without a result (memory limit %d GiB?)" % (MEM_LIMIT_BYTES // 2 ** 30),
@@ -623,11 +634,10 @@ def _run_pool(tasks, procs, hard_timeout_s):
                 p.join(5)
                 got = dict(name=t[1], budget_exceeded="hard wall-clock limit %ds" % hard_timeout_s, violations=[], inconclusive=["<whole obligation>"],
                            claims={}, n_claims=0, vacuous=False, harness_errors=[], wall_s=round(time.time() - t0, 1))
-            if got is None and not (pc.poll() or not p.is_alive() or time.time() - t0 > hard_timeout_s):
+            if got is None:
+                # nothing yet (a result that arrives between the checks above is picked up on the next round)
                 still.append((t, p, pc, t0))
             else:
-                if got is None:
-                    got = dict(name=t[1], harness_errors=["no result"], violations=[], inconclusive=[], claims={}, n_claims=0, vacuous=True, wall_s=0)
                 results[t[1]] = got
         running = still
     return [results[t[1]] for t in tasks]
